@@ -457,6 +457,12 @@ class _OneToManyDP(_DependencyProcessor):
                     if child is not None and self.hasparent(child) is False:
                         if self.cascade.delete_orphan:
                             uowcommit.register_object(child, isdelete=True)
+                            for cascaded in self.mapper.cascade_iterator(
+                                "delete", child
+                            ):
+                                uowcommit.register_object(
+                                    cascaded[2], isdelete=True
+                                )
                         else:
                             uowcommit.register_object(child)
 
